@@ -69,7 +69,7 @@ inductive Response where
   | ack (ver : Nat) (chs : List Chg) (msgs : List Msg)   -- 200 with `version`
   | noop                                                  -- 200 without `version`
   | err (e : ErrKind)                                     -- 4xx / 5xx, no version
-deriving Repr, Inhabited
+deriving Repr, DecidableEq, Inhabited
 
 structure Cfg where
   size : Chg → Nat          -- `Change::estimated_byte_size`
